@@ -92,10 +92,13 @@ def run(ctx):
         gens, res = alphabets(mech, gm, ctx.tier)
         b = blk(mech)
         # transition cover (Window = last k ops)
-        mc("cover", "exact", mech, gm, 3 if mech != "ctr" else 2, InstOps=std, GenOps=S(gens), ReseedOps=S(res), MaxOps=99, Window=1 if quick else 2)
+        w = (0 if mech == "hmac" else 1) if quick else (1 if mech == "hmac" else 2)
+        mc("cover", "exact", mech, gm, 3 if mech != "ctr" else 2, InstOps=std, GenOps=S(gens), ReseedOps=S(res), MaxOps=99, Window=w)
         # request sizes across the per-request maximum (GM maxima are one block: already in the cover alphabet)
-        if not gm:
-            sizes = [G(0), G(b + 1, 7), G(2048), G(2049, 7)] if quick else \
+        if not gm and quick:
+            mc("sizes", "exact", mech, gm, 1, InstOps=S([]), GenOps=S([]), ReseedOps=S([]), ScriptName='"sizes"', MaxOps=10, Window=99, LeavesOnly="TRUE")
+        elif not gm:
+            sizes = [G(0), G(b + 1, 7), G(2048), G(2049, 7)] if mech == "hmac" else \
                     [G(0), G(1), G(b - 1), G(b), G(b + 1), G(2047, 7), G(2048), G(2048, 7), G(2049), G(2049, 7)]
             mc("sizes", "exact", mech, gm, 3, InstOps=std, GenOps=S(sizes), ReseedOps=S([]), MaxOps=3, Window=1)
         # instantiation lengths incl. below-minimum
@@ -156,7 +159,7 @@ def run(ctx):
                      MaxOps=99, Window=1, FaultKinds=S([1, 2] if quick else [1, 2, 3]), SrcCap=3 if quick else 4)
                 # Read sizes across the per-request maximum
                 big = [0, 1, m - 1, m, m + 1] + ([3 * m + 5] if (not quick or mech == "ctr") else [])
-                prng("s", mech, gm, 3, FaultKinds=S([]), NewOps=S([32000]), ReadOps=S(big), MaxOps=2 if quick else 3, Window=1)
+                prng("s", mech, gm, 2, FaultKinds=S([]), NewOps=S([32000]), ReadOps=S(big), MaxOps=2 if quick else 3, Window=1)
         # envelope only, all instantiations: every Read sequence to a fixed depth under every fault choice
         prng("e", mech, gm, 2, exact=False, algs=ENV_ALGS[(mech, gm)], FaultKinds=S([1, 2]), NewOps=S([32000, 24000]),
              ReadOps=S([0, 1, 3 * m] if not gm else [0, 3 * m, 9 * m + 1]), MaxOps=5 if quick else 6, Window=99, LeavesOnly="TRUE")
@@ -170,7 +173,7 @@ def run(ctx):
     jobs.sort(key=lambda j: min([v for k, v in order.items() if ("_" + k + "_") in j["name"] or ("C17" + k + "_") in j["name"]] or [9]))
     import time
     t0 = time.time()
-    ctx.tlc_many(jobs, parallel=6 if quick else 5)
+    ctx.tlc_many(jobs, parallel=7 if quick else 5)
     ph = ctx.extra.setdefault("phases_s", {})
     ph["tlc"] = round(time.time() - t0)
     t0 = time.time()
@@ -184,11 +187,12 @@ def run(ctx):
          cfgs.c("scalar", "cpu.aes=off,cpu.avx2=off,cpu.avx=off,cpu.ssse3=off"), cfgs.c("purego", tags=cfgs.PUREGO)]
     for c in K:
         ctx.build("replay", tuple(c["tags"]))
-    # the sleeping scenarios run next to the other replays (6.5 s each, one process per scenario)
-    with concurrent.futures.ThreadPoolExecutor(max_workers=len(files["tick"]) + 1) as ex:
+    # all replays side by side; the sleeping scenarios (6.5 s each) get one process per scenario; the envelope-only
+    # traces do not depend on the dispatch tier (no bytes compared): first and last configuration only
+    with concurrent.futures.ThreadPoolExecutor(max_workers=core.NCPU) as ex:
         futs = [ex.submit(ctx.replay, f, K[0], 30) for f in files["tick"]]
-        for tf in (exact, env, prngf):
-            ctx.replay_all(tf, K)
+        futs += [ex.submit(ctx.replay, tf, c) for tf in (exact, prngf) for c in K]
+        futs += [ex.submit(ctx.replay, env, c) for c in (K[0], K[3])]
         for f in futs:
             f.result()
     ph["replay"] = round(time.time() - t0)
@@ -197,10 +201,13 @@ def run(ctx):
     ctx.binding_guard(prngf, K[0])
     # code -> spec
     nrec = 24 if quick else 400
-    for c in (K[0], K[2], K[3]):
+    def rv(c):
         ev = ctx.record("drbg", nrec, tags=c["tags"], env=c["env"], name="drbg-" + c["label"])
-        ctx.validate("Trace_Drbg", ev, "drbg", shards=6, label=c["label"], guard=(c is K[0]), timeout=3000,
+        ctx.validate("Trace_Drbg", ev, "drbg", shards=5, label=c["label"], guard=(c is K[0]), timeout=3000,
                      constants=dict(Exact="TRUE", Interval=8, TimeLimit=6000))
+    with concurrent.futures.ThreadPoolExecutor(max_workers=3) as ex:
+        for f in [ex.submit(rv, c) for c in (K[0], K[2], K[3])]:
+            f.result()
     ph["record_validate"] = round(time.time() - t0)
     ctx.sample_traces(exact)
     ctx.sample_traces(prngf)
